@@ -210,7 +210,7 @@ def handle (op : String) (a : List String) (impl : String) : Option Verdict :=
     let sizeTag := if N ≤ 170 then "le170" else if N < 1030 then "171to1029" else "ge1030"
     if v.agrees q (some floor) then pure (.ok s!"pmf-{sizeTag}-{if q == XR.fin 0 then "zero" else "pos"}")
     else pure (.bad (q.render))
-  | "c13.view", [sh, bs, rm, kp, ps, pi, mk, nm] | "c13.chain", [sh, bs, rm, kp, ps, pi, mk, nm] => do
+  | "c13.view", [sh, bs, rm, kp, ps, pi, mk, nm] | "c13.chain", [sh, bs, rm, kp, ps, pi, mk, nm] | "c13.views", [sh, bs, rm, kp, ps, pi, mk, nm, _] => do
     let shape ← parseNats sh; let data ← parseBits bs
     let rm ← optNats rm; let kp ← optNats kp; let ps ← optNats ps; let pi ← optNats pi
     let o : ViewOpts := { remove := rm, keep := kp, projectShape := ps, projectIndividuals := pi, mask := mk == "1", normalize := nm == "1" }
